@@ -71,7 +71,7 @@ def equal(a, b):
 
 
 # ---------------------------------------------------------------- documented result types
-def typed_ok(param, raw, result):
+def typed_ok(param, raw, result, program=None):
     """The documented type of clean()'s return value, per parameter class. None = fine / not stated."""
     from mpilot import params as P
     from mpilot.commands import Command
@@ -82,7 +82,16 @@ def typed_ok(param, raw, result):
     if isinstance(param, P.DataTypeParameter):
         return None if result in list(param.valid_types.values()) else "datatype-not-a-declared-type"
     if isinstance(param, P.PathParameter):
-        return None if isinstance(result, str) else "path-not-str"
+        if not isinstance(result, str):
+            return "path-not-str"
+        wd = getattr(program, "working_dir", None)
+        if isinstance(raw, str) and raw and not os.path.isabs(raw) and wd and os.path.isabs(wd):
+            # relative paths are resolved against the working directory of the program doing the cleaning
+            if os.path.normpath(result) != os.path.normpath(os.path.join(wd, raw)):
+                return "relative-path-not-resolved-against-working-dir"
+        if isinstance(raw, str) and os.path.isabs(raw) and result != raw:
+            return "absolute-path-changed"
+        return None
     if isinstance(param, P.StringParameter):
         return None if isinstance(result, str) else "string-not-str"
     if isinstance(param, P.NumberParameter):
@@ -170,7 +179,7 @@ def prepare(ctx):
             _rec["evals"] += 1
             outer = getattr(type(self), "clean", None) is cls.clean   # not an inner super().clean() call
             if outer:
-                bad = typed_ok(self, value, result)
+                bad = typed_ok(self, value, result, program)
                 if bad:
                     _rec["violations"].append(("typed:" + bad, param_label(self), snap(value), snap(result)))
             if snap(value) != OLD.raw:
@@ -325,7 +334,7 @@ def run_case(ctx, case):
             elif getattr(r1, "lineno", None) != 7 and not isinstance(param, P.ListParameter):
                 ctx.dontcare("error without the given lineno")
             continue
-        bad = typed_ok(param, raw, r1)
+        bad = typed_ok(param, raw, r1, program)
         if bad:
             ctx.fail("%s:%s:typed:%s" % (label, vclass, bad), {"raw": repr(raw)[:120], "result": repr(r1)[:120], "wd": case["wd"]})
             continue
@@ -349,6 +358,19 @@ def run_case(ctx, case):
                 ctx.fail("%s:%s:not-idempotent" % (label, vclass), {"raw": repr(raw)[:120], "cleaned": repr(r1)[:120], "recleaned": repr(r3)[:120]})
         except Exception as e:
             ctx.fail("%s:%s:reclean-raises-%s" % (label, vclass, type(e).__name__), {"raw": repr(raw)[:120], "cleaned": repr(r1)[:120]})
+    if isinstance(param, P.PathParameter) and case["wd"] == "abs":
+        # the same parameter object serves every program of the process: a second program with another working directory
+        program2, d2 = _world(ctx, "abs")
+        for raw in ("in.csv", "sub/in.csv", "./in.csv"):
+            try:
+                r = param.clean(raw, program2, 7)
+            except Exception as e:
+                ctx.fail("%s:str:abs-path:second-program-raises-%s" % (label, type(e).__name__), {"raw": raw})
+                continue
+            ctx.count("clean_calls_judged")
+            bad = typed_ok(param, raw, r, program2)
+            if bad:
+                ctx.fail("%s:second-program:typed:%s" % (label, bad), {"raw": raw, "result": r, "working_dir": d2, "first_working_dir": d})
     if len(ctx.samples) < 4:
         ctx.sample({"parameter": label, "working_dir": case["wd"], "raw_values_tried": len(vals), "example": [repr(vals[3]), repr(vals[16]), repr(vals[60])[:60]]})
 
